@@ -205,6 +205,19 @@ Theorem C03_bmc_full_witness_shortest :
 Proof. exact bmc_full_witness_shortest. Qed.
 Print Assumptions C03_bmc_full_witness_shortest.
 
+(** The model of the previous section is the instance "[check_constraints = false], solver without unknown,
+    errors and faults" of the full model ([lift_solver]: "sat + model" / "unsat", get-value reports the
+    model's values), whenever it does not panic and [k_max <= 2000]: nothing was lost by the generalisation. *)
+Theorem C03_bmc_full_extends_bmc_model :
+  forall (EM : Type) (solver_model : list cmd -> list expr -> list expr -> option env)
+         (sy : sys) (nm : expr -> string) (individually : bool) (k_max : nat),
+    (k_max <= 2000)%nat ->
+    bmc_model_w solver_model sy nm individually k_max <> WPanic ->
+    bmc_model_full EM (lift_solver EM solver_model) sy nm false individually k_max =
+    lift_result EM (bmc_model_w solver_model sy nm individually k_max).
+Proof. exact bmc_full_is_bmc_w. Qed.
+Print Assumptions C03_bmc_full_extends_bmc_model.
+
 (** The last sentence of the property: the witness names and orders states and inputs as the system does
     and provides a value for every input at every step.  [has_value s ov]: [ov = Some x] with [x] a value
     of the type of [s] (a bit-vector in range, or an array with one in-range entry per index: array
